@@ -7,6 +7,8 @@ R04.3 calculate_lalr1_parse_table: the Ok value's second component is `calls` of
       to Grammar::lalr1, and lalr1's Err is propagated (never converted into Ok).
 R04.4 documented resolution policy: shift preferred (constant true) and priority = -(production index) (earlier
       production preferred).
+R04.5 = all C12 rules re-evaluated: lalry turns "reduce a start production on end of input" into Accept, so sound
+      acceptance needs the start symbol to be isolated by augment_grammar (necessary condition of the soundness clause).
 Soundness of the resolved table (inside lalry, grammars x inputs) is NOT decided.
 """
 from .. import cfg
@@ -14,7 +16,7 @@ from ..dataflow import operand_term, raw_operand_place, forward_derived, single_
 from ..facts import AnchorMissing
 from .common import PA, where, short, ok_blocks, classify_switch, only_via_edge, recv_fields
 
-CRATES = ["parol.lib"]
+CRATES = ["parol.lib", "parol_runtime.lib"]
 
 META = {
     "explanation": "Decides that the conflict-reporting channel between lalry and parol's caller cannot be bypassed: "
@@ -144,3 +146,6 @@ def check(ctx):
     conv = [b for b in facts.in_crate(PA) if b.path.startswith("<parol::analysis::lalr1_parse_table::LRParseTable as std::convert::From<")]
     ctx.check(len(conv) == 1, "R04.3", "LRParseTable::from|exists", "table conversion found", "table conversion missing",
               nontrivial=False)
+    # R04.5: isolation of the start symbol (C12's rules; keys keep their R12.x names)
+    from . import c12
+    c12.check(ctx)
